@@ -65,7 +65,7 @@ def main():
             "property": pid,
             "summary": notes,
             "needs_to_manifest": notes,
-            "produced_by": "a fresh sub-agent given only the property text and its own scratch worktree of /repo (round 3)",
+            "produced_by": "a fresh sub-agent given only the property text and its own scratch worktree of /repo (round %s)" % os.environ.get("SEED_ROUND", "5"),
             "files_touched": touched,
             "existing_tests_pass_with_change": True,
             "confirmed": {
